@@ -45,9 +45,21 @@ def check(ctx):
             X = Xq.astype('int32' if form.startswith('int32') else 'int64')
         elif form in ('fortran', 'readonly'):
             X = st.in_form(X, form)
+    if nu == 0 and rng.random() < 0.25:
+        # FEWER snapshot pairs than states (a short record of a high-dimensional state): every SVD factor is then
+        # rectangular the other way round, and the retained rank is bounded by the number of pairs
+        form = 'wide'
+        nx = rng.randint(4, 8)
+        rs = np.random.RandomState(rng.randint(0, 2 ** 31 - 1))
+        A0 = rs.randn(nx, nx)
+        A0 *= rng.choice([0.7, 0.95]) / max(abs(np.linalg.eigvals(A0)))
+        rows = [rs.randn(nx)]
+        for _ in range(rng.randint(2, nx - 1)):
+            rows.append(A0 @ rows[-1])
+        X, kw = np.array(rows), {'n_inputs': 0, 'episode_feature': False}
     mode = rng.choice(['exact', 'projected'])
-    if nu == 0 and rng.random() < 0.6:
-        t, td = tsvd_choice(rng, nx)
+    if nu == 0 and rng.random() < (0.6 if form != 'wide' else 1.0):
+        t, td = tsvd_choice(rng, min(nx, X.shape[0] - 1) if form == 'wide' else nx)
         est = pykoop.Dmd(mode_type=mode, tsvd=t)
         desc = f'Dmd({mode}, {td})'
     else:
@@ -55,7 +67,7 @@ def check(ctx):
         t2, d2 = tsvd_choice(rng, nx)
         est = pykoop.Dmdc(mode_type=mode, tsvd_unshifted=t1, tsvd_shifted=t2)
         desc = f'Dmdc({mode}, {d1}, {d2})'
-    case = {'estimator': desc, 'nx': nx, 'nu': nu, 'form': form, 'X': X.tolist(), 'replay': {'rng': snap}}
+    case = {'estimator': desc + (' wide data' if form == 'wide' else ''), 'nx': nx, 'nu': nu, 'form': form, 'X': X.tolist(), 'replay': {'rng': snap}}
     try:
         est.fit(X, **kw)
         if rng.random() < 0.3:
@@ -121,6 +133,7 @@ def run(ctx):
         for i in range(n):
             why, case, note = check(ctx)
             ctx.count(case['estimator'].split('(')[0])
+            ctx.count('form:' + case['form'])
             if note:
                 ctx.count('note:' + note[:40])
             ctx.record_case({k: v for k, v in case.items() if k != 'X'}, True)
